@@ -826,10 +826,19 @@ pub fn collect_typedefs(
 ) {
     predeclare_types(env.current_mut(), hir, hir_table);
 
+    // The types first, wherever they stand in the source: the checks on impl blocks below read
+    // their definitions (the variants of an enum), not only their names.
     for item in hir.toplevels.iter() {
         match hir_table.def(*item) {
             hir::Def::EnumDef(enum_def) => define_enum(env, diagnostics, enum_def),
             hir::Def::StructDef(struct_def) => define_struct(env, diagnostics, struct_def),
+            _ => {}
+        }
+    }
+
+    for item in hir.toplevels.iter() {
+        match hir_table.def(*item) {
+            hir::Def::EnumDef(_) | hir::Def::StructDef(_) => {}
             hir::Def::TraitDef(trait_def) => {
                 // `Name::m(x)` could mean the trait's method or the type's inherent method.
                 let name = tast::TastIdent(trait_def.name.to_ident_name());
